@@ -185,12 +185,19 @@ theorem divNxmArr_spec (T U : ℕ) (num ds : List ℕ) (d v : ℕ)
     val (T * U) num = val (T * U) (divNxmArr T U num ds d v).1 * val (T * U) ds + val (T * U) (divNxmArr T U num ds d v).2
     ∧ val (T * U) (divNxmArr T U num ds d v).2 < val (T * U) ds
     ∧ (divNxmArr T U num ds d v).1.length = num.length
-    ∧ (divNxmArr T U num ds d v).2.length = ds.length := by
+    ∧ (divNxmArr T U num ds d v).2.length = ds.length
+    ∧ AllLt (T * U) (divNxmArr T U num ds d v).1
+    ∧ AllLt (T * U) (divNxmArr T U num ds d v).2 := by
   rw [divNxmArr_eq T U num ds d v h3 hlen]
-  obtain ⟨k1, k2, k3, k4, _, _⟩ := knuthDiv_spec T U num ds d v hT hU hW2 hnum hds h3 hlen hn1 hn2 hd hv
+  obtain ⟨k1, k2, k3, k4, k5, k6⟩ := knuthDiv_spec T U num ds d v hT hU hW2 hnum hds h3 hlen hn1 hn2 hd hv
   simp only []
   rw [val_append, val_replicate_zero, Nat.mul_zero, Nat.add_zero]
-  refine ⟨k1, k2, ?_, k4⟩
-  simp [k3]; omega
+  refine ⟨k1, k2, ?_, k4, ?_, k6⟩
+  · simp [k3]; omega
+  · intro x hx
+    simp only [List.mem_append, List.mem_replicate] at hx
+    rcases hx with h | ⟨_, rfl⟩
+    · exact k5 x h
+    · omega
 
 end Ruint.Div.KArr
